@@ -28,7 +28,7 @@ COQ_PROPS_C08 = ['Properties_C08_kll']
 RULE_C07 = ('operation scripts over up to 4 registers holding kll_sketch<int64_t>, kll_sketch<double> (integer values, NaN updates and NaN split points) or '
             'kll_sketch<string, greater> (order-isomorphic encoding): k in {8,9,16,20,200} plus refused k (0,7,65536); streams sorted/reversed/random/constant/'
             'heavy duplicates of 0..~1500 items; merges of equal and unequal k, exact/estimating/empty operands, lvalue and rvalue, merge chains and trees '
-            '(level 0 left empty by a merge is frequent; 12 merge trees of depth >= 2 with 3-4 distinct k from 8..400 whose deepest operand is in estimation mode: min_k and the published rank error are checked against the minimum over the tree); after the history every register is observed (n, min, max, num_retained, iterator listing) and queried: '
+            '(level 0 left empty by a merge is frequent; 5 merges of two estimation-mode sketches, k in {200, 20, 50, 30}, in which general_compress itself adds a level, sizes chosen with the size-only simulation, observed before and after and while further updates fill the buffer up to the next compaction: num_retained <= compute_total_capacity(k, num_levels) with the implementation\'s own num_levels; 12 merge trees of depth >= 2 with 3-4 distinct k from 8..400 whose deepest operand is in estimation mode: min_k and the published rank error are checked against the minimum over the tree); after the history every register is observed (n, min, max, num_retained, iterator listing) and queried: '
             'rank grid, dyadic quantile grid incl. 0 and 1 and out-of-range ranks, CDF/PMF with valid, unsorted, duplicate and NaN split points, sorted-view listing; '
             'queries are also interleaved with updates (they sort level 0 in place). non-trivial = at least one compaction (coin drawn) or one merge')
 RULE_C08 = ('exhaustive enumeration on the implementation of ALL outcomes of the internal coin flips for short histories (updates and merges over registers; '
@@ -69,7 +69,7 @@ def total_capacity(k, nl):
 
 class Sz:
     def __init__(self, k):
-        self.k = k; self.cap = k; self.sz = [0]; self.n = 0; self.flips = 0; self.gc_odd_shifted = False
+        self.k = k; self.cap = k; self.sz = [0]; self.n = 0; self.flips = 0; self.gc_odd_shifted = False; self.gc_added_level = False
     def copy(self):
         c = Sz(self.k); c.cap = self.cap; c.sz = list(self.sz); c.n = self.n; c.flips = 0
         return c
@@ -109,7 +109,7 @@ class Sz:
                     half = raw // 2
                     out.append(raw - 2 * half); work[cur + 1] += half; cnt -= half; f += 1
                     if cur == nl - 1:
-                        nl += 1; tgt += level_capacity(self.k, nl, 0)
+                        nl += 1; tgt += level_capacity(self.k, nl, 0); self.gc_added_level = True   # a level is added INSIDE general_compress
                 if cur == nl - 1:
                     break
                 cur += 1
@@ -238,6 +238,31 @@ def gen_c07(rng, tier):
     # the confirmed defect F2, verbatim (a(k=8) 37 updates, b(k=8) 91 updates, a.merge(b))
     ops = [[1, 0, 0, 8], [1, 1, 0, 8]] + [[2, 0, i] for i in range(37)] + [[2, 1, 1000 + i] for i in range(91)] + [[4, 0, 1, 0], [5, 0], [10, 0]]
     cases.append(dict(id='kll_f2', ops=ops, tags=['merge', 'compaction']))
+    # merges of two estimation-mode sketches in which general_compress itself adds a level (capacity bookkeeping of the merge path:
+    # the space bound num_retained <= compute_total_capacity(k, num_levels) afterwards); k with bottom-level capacities above the minimum 8
+    for gi in range(5 if not thorough else 40):
+        k = [200, 20, 50, 200, 30][gi % 5]; kind = rng.choice([0, 0, 1])
+        for _ in range(300):
+            na = rng.randrange(k + 1, 4 * k); nb = rng.randrange(k + 1, 4 * k)
+            a = Sz(k); b = Sz(k); fl = 0
+            for _ in range(na): fl += a.internal_update()
+            for _ in range(nb): fl += b.internal_update()
+            if len(a.sz) < 2 or len(b.sz) < 2: continue
+            fl += a.merge(b)
+            if a.gc_added_level: break
+        else:
+            continue
+        xa = stream(rng, na); xb = stream(rng, nb)
+        ops = [[99, rng.randrange(1 << 30)], [1, 0, kind, k], [1, 1, kind, k]] + [[2, 0, x] for x in xa] + [[2, 1, x] for x in xb] + [[5, 0], [5, 1], [4, 0, 1, 0], [5, 0]]
+        # keep updating until the merged sketch has filled its buffer and compacted again, observing on the way: a wrong final_capacity shows
+        # as num_retained above compute_total_capacity(k, num_levels) just before that compaction
+        xc = stream(rng, a.cap - sum(a.sz) + 40)
+        for j, x in enumerate(xc):
+            ops.append([2, 0, x])
+            if j % 8 == 7 or j >= len(xc) - 45:
+                ops.append([5, 0])
+        ops += query_block(rng, 0, kind, xa + xb + xc, thorough)
+        cases.append(dict(id='kllgrow%d' % gi, ops=ops, tags=['merge', 'compaction', 'level-added-in-general_compress', 'k=%d' % k]))
     for ti in range(12 if not thorough else 120):
         kind = rng.choice([0, 0, 1, 2])
         ks = rng.sample([8, 9, 12, 16, 20, 50, 200, 400], rng.choice([3, 3, 4]))
@@ -395,7 +420,7 @@ def oracle_c07(case, irecs, mrecs):
                 fail('kll_observe', 'observation refused', i); continue
             n, nret, empty, est, mink = R[:5]
             log = g['log']
-            if S and n != S[0] or n != len(log):
+            if n != len(log):
                 fail('kll_n', 'get_n() = %d but %d items were accepted' % (n, len(log)), i)
             if (empty == 1) != (len(log) == 0):
                 fail('kll_empty', 'is_empty() = %d with %d accepted items' % (empty, len(log)), i)
@@ -422,6 +447,8 @@ def oracle_c07(case, irecs, mrecs):
                 fail('kll_retained_not_input', 'a retained item was never given to the sketch', i)
             if F and nret > F[0]:
                 fail('kll_space_bound', 'num_retained %d above the advertised bound %d' % (nret, F[0]), i)
+            if len(F) >= 9 and nret > total_capacity(F[6], F[7]):
+                fail('kll_space_bound', 'num_retained %d above compute_total_capacity(k = %d, num_levels = %d) = %d' % (nret, F[6], F[7], total_capacity(F[6], F[7])), i)
             if len(S) >= 5 and nret > S[4]:
                 fail('kll_space_bound', 'num_retained %d above compute_total_capacity = %d' % (nret, S[4]), i)
             if est == 0 and (nret != n or sorted(items) != sorted(log)):
